@@ -206,5 +206,8 @@ PROP = Prop(
     streams=[DepStream(), CountStream()],
     trusted_base=["Lean 4.33 kernel; axioms propext, Classical.choice, Quot.sound only",
                   "harness serialisation; Python set semantics modelled as duplicate-free lists under =="],
+    level_text='Lean theorems (unbounded, all flag settings): the dependency analysis returns exactly the occurrences selected by the flags (soundness: every result is an outermost selected subterm; completeness up to Python == on well-formed trees), with all composite flags off it returns exactly the free variables, and evaluation depends only on those (coincidence lemma); the flop counter equals an independent operation count and the CSE-aware counter counts a seen wrapper as 0. Tied to DependencyMapper (plain/cached, composite_leaves), get_num_nodes, FlopCounter, CSEAwareFlopCounter by correspondence.',
+    level_note='Trusted: Lean kernel; harness; Python sets modelled as duplicate-free lists under == with left-biased union. Completeness needs well-formed trees (no nan constants, duplicate-free keyword names). Node counting is tied by correspondence and the independent scan only.',
+    technique='Lean 4 proofs about the traversal model (Occurs relation, coincidence lemma) + differential correspondence + independent dataclass-field scan',
     design_ref="DESIGN.md §4 C09",
 )
